@@ -96,7 +96,22 @@ def gen_atom(rng: random.Random, var: str, *, reversed_ok=True) -> str:
     return f'{var} {op} "{v}"'
 
 
+def gen_group(rng: random.Random, var: str) -> str:
+    """A same-variable ==-disjunction or !=-conjunction (the library keeps these as atom groups)."""
+    pool = STRING_VARS.get(var) or (EXTRA_NAMES if var == "extra" else None)
+    if pool is None:
+        return gen_atom(rng, var)
+    vals = rng.sample(pool, min(len(pool), rng.choice([2, 2, 3])))
+    if rng.random() < 0.5:
+        return "(" + " or ".join(f'{var} == "{v}"' for v in vals) + ")"
+    return "(" + " and ".join(f'{var} != "{v}"' for v in vals) + ")"
+
+
 def gen_marker(rng: random.Random, variables: list[str], depth: int) -> str:
+    if rng.random() < 0.18:
+        cands = [v for v in variables if v in STRING_VARS or v == "extra"]
+        if cands:
+            return gen_group(rng, rng.choice(cands))
     if depth == 0 or rng.random() < 0.25:
         return gen_atom(rng, rng.choice(variables))
     k = rng.choice([2, 2, 3])
@@ -351,8 +366,8 @@ class MSession:
             obj, exc = timed(lambda: x.without_extras())
         return self._push({"op": op, "a": a, "b": 0, "text": "", "exc": exc, "names": names}, obj)
 
-    def law(self, name: str, a: int, b: int):
-        return self._push({"op": "law", "a": a, "b": b, "text": "", "exc": "", "names": [], "law": name}, None)
+    def law(self, name: str, a: int, b: int, pid: str = "C14"):
+        return self._push({"op": "law", "a": a, "b": b, "text": "", "exc": "", "names": [], "law": name, "law_pid": pid}, None)
 
     def finish(self, grid_seed: int) -> dict:
         rng = random.Random(grid_seed)
@@ -362,7 +377,7 @@ class MSession:
             full = {"op": ev["op"], "a": ev["a"], "b": ev["b"], "text": ev["text"], "exc": ev["exc"], "names": ev["names"],
                     "table": [], "ref": [], "shape": {"k": "empty", "key": "", "n": 0, "ch": []}, "vars": [], "is_empty": False, "is_any": False,
                     "eq": [], "eq_rev": [], "eq_self": True, "hash_eq": [], "pkg_accepts": ev.get("pkg_accepts", True),
-                    "has_empty_token": ev.get("has_empty_token", False), "law": ev.get("law", ""), "str": ""}
+                    "has_empty_token": ev.get("has_empty_token", False), "law": ev.get("law", ""), "law_pid": ev.get("law_pid", "C14"), "str": ""}
             if obj is not None:
                 try:
                     tab, exc = timed(table_of, obj, envs, secs=10.0)
@@ -405,38 +420,51 @@ def pick_vars(rng: random.Random) -> list[str]:
     return rng.choice(pools)
 
 
-def random_session(sid: int, seed: int, length: int = 11) -> dict:
+def random_session(sid: int, seed: int, length: int = 16) -> dict:
     rng = random.Random(seed)
     s = MSession(sid, seed)
     variables = pick_vars(rng)
     live = []
+
+    def followups(r):
+        """Every new result is rendered and re-parsed (C07); compound ones are also projected (C12)."""
+        if r is None or s.dead:
+            return
+        s.reparse(r)
+        if s.dead:
+            return
+        if rng.random() < 0.4:
+            x = rng.random()
+            if x < 0.45:
+                s.project("only", r, rng.sample(variables, rng.randint(1, len(variables))))
+            elif x < 0.85:
+                s.project("exclude", r, [rng.choice(variables)])
+            else:
+                s.project("without_extras", r, ["extra"])
+
     for _ in range(rng.randint(2, 3)):
         r = s.parse(gen_marker(rng, variables, rng.choice([0, 1, 1, 2])))
         if r is None:
             return s.finish(seed + 1)
         live.append(r)
-    if rng.random() < 0.15:
+        followups(r)
+    if rng.random() < 0.15 and not s.dead:
         r = s.parse(rng.choice(["", "<empty>"]))
         if r is not None:
             live.append(r)
     while len(s.raw) < length and not s.dead:
         x = rng.random()
-        if x < 0.3:
-            r = s.binop("and", rng.choice(live), rng.choice(live))
-        elif x < 0.6:
-            r = s.binop("or", rng.choice(live), rng.choice(live))
-        elif x < 0.75:
-            r = s.reparse(rng.choice(live))
-        elif x < 0.85:
-            k = rng.randint(1, len(variables))
-            r = s.project("only", rng.choice(live), rng.sample(variables, k))
-        elif x < 0.95:
-            r = s.project("exclude", rng.choice(live), [rng.choice(variables)])
+        a = rng.choice(live)
+        # operands that share structure with each other are where simplification is busiest
+        b = rng.choice(live[-3:]) if rng.random() < 0.5 else rng.choice(live)
+        if x < 0.5:
+            r = s.binop("and", a, b)
         else:
-            r = s.project("without_extras", rng.choice(live), ["extra"])
+            r = s.binop("or", a, b)
         if r is None:
             break
         live.append(r)
+        followups(r)
     return s.finish(seed + 1)
 
 
@@ -475,11 +503,58 @@ def law_session(sid: int, seed: int) -> dict:
     return s.finish(seed + 1)
 
 
+REFLECT = {"<": ">", "<=": ">=", ">": "<", ">=": "<=", "==": "==", "!=": "!="}
+
+
+def clear_caches():
+    from dep_logic import utils as dl_utils
+    from dep_logic.markers import single as dl_single
+    import dep_logic.markers as dl_markers
+    for fn in (dl_markers.parse_marker, dl_single._merge_single_markers, dl_utils.cnf, dl_utils.dnf):
+        try:
+            fn.cache_clear()
+        except AttributeError:
+            pass
+
+
+def interchange_session(sid: int, seed: int) -> dict:
+    """C13: objects that compare equal are interchangeable as operands.  Two spellings of one atom
+    (literal on the right / on the left) are combined with the same third marker; the memo caches
+    are emptied in between so that the second result is really computed from the second object."""
+    rng = random.Random(seed)
+    s = MSession(sid, seed)
+    var = rng.choice(["python_version", "python_full_version", "platform_release", "sys_platform", "os_name"])
+    pool = VERSION_VARS.get(var) or STRING_VARS[var]
+    op = rng.choice(["<", "<=", ">", ">=", "==", "!="] if var in VERSION_VARS else ["==", "!="])
+    v = rng.choice(pool)
+    t1, t2 = f'{var} {op} "{v}"', f'"{v}" {REFLECT[op]} {var}'
+    partner_vars = ["python_version", "python_full_version"] if var.startswith("python") else [var]
+    k_text = gen_marker(rng, partner_vars + [rng.choice(["sys_platform", "extra"])], rng.choice([0, 0, 1]))
+    clear_caches()
+    m1, m2, k = s.parse(t1), s.parse(t2), s.parse(k_text)
+    if None in (m1, m2, k) or s.dead:
+        return s.finish(seed + 1)
+    for name, fn in (("interchange_and", lambda x: s.binop("and", x, k)), ("interchange_or", lambda x: s.binop("or", x, k)),
+                     ("interchange_rand", lambda x: s.binop("and", k, x))):
+        clear_caches()
+        r1 = fn(m1)
+        clear_caches()
+        r2 = fn(m2) if r1 is not None else None
+        if r1 is None or r2 is None or s.dead:
+            break
+        s.law(name, r1, r2, pid="C13")
+    clear_caches()
+    return s.finish(seed + 1)
+
+
 def make_batch(args) -> list[dict]:
     seed, n_random, n_law = args
     out = []
     for k in range(n_random):
         out.append(random_session(0, seed * 1000003 + k))
     for k in range(n_law):
-        out.append(law_session(0, seed * 1000033 + 500000 + k))
+        if k % 4 == 3:
+            out.append(interchange_session(0, seed * 1000037 + 700000 + k))
+        else:
+            out.append(law_session(0, seed * 1000033 + 500000 + k))
     return out
